@@ -16,7 +16,12 @@ not observable, so the original order is the reference and disagreements that on
 Graphs with blank nodes are compared only among the channels that read the source once per pass with stable labels
 (nt, tsv_spo, turtle_iter, rdflib Graph object).
 
+The reference is itself a raw-string delivery, so for nt, tsv_spo and turtle_iter the raw string is additionally compared with the
+file holding the same text (key raw-vs-file).  If the raw N-Triples string disagrees with its file AND more rdflib-backed channels
+side with the file, the file output becomes the reference for the other channels of that graph (else every channel would be blamed).
+
 Finding keys
+    C08:channel-differs:raw-vs-file:<kind|crash>         raw_graph=<text> vs graph_file_input=<same text> (nt, tsv_spo, turtle_iter)
     C08:channel-differs:<channel>[:<compression>][:files=<n>]:<kind>
     C08:channel-crashes:<channel>[:<compression>][:files=<n>]
   channel = <format> (file delivery) | <format>-raw | rdflib-graph; compression / files=<n> appear only when the same format agrees
@@ -91,6 +96,9 @@ def render(fmt, T):
     if fmt == "turtle_iter":                             # house style: one 's p o .' per line, full IRIs, blank before the dot
         head = "@prefix ex: <%s> .\n@prefix xsd: <%s> .\n@prefix rdf: <%s> .\n\n" % (G.EX, XSD, M.RDF)
         return head + M.to_ntriples(T)
+    if fmt == "xml":                                     # U+000C is not an XML 1.0 character (rdflib writes it, expat refuses it)
+        T = [(s, p, M.Lit(o.lex.replace("\x0c", " "), dt=o.dt, lang=o.lang) if M.is_literal(o) and "\x0c" in o.lex else o)
+             for (s, p, o) in T]
     g = _rdflib_graph(T)
     g.bind("ex", G.EX)
     g.bind("o", G.OTHER)
@@ -281,17 +289,66 @@ def check_case(case, R):
     tmp = tempfile.mkdtemp(prefix="c08_")
     try:
         ref_variant = {"fmt": "nt", "how": "raw"}
+        ref_name = "raw N-Triples string"
         try:
             ref = run_variant(R, ref_variant, T, cfg, t, tmp)
         except U.Skipped as exc:
-            R.crashes["reference: " + exc.signature] += 1
+            ref = exc
+        outs = {}                                       # variant index -> normalised output | U.Skipped
+        for i, v in enumerate(case["variants"]):
+            try:
+                outs[i] = run_variant(R, dict(v, id=i), T, cfg, t, tmp)
+            except U.Skipped as exc:
+                outs[i] = exc
+
+        def plain(fmt, how):
+            for j, w in enumerate(case["variants"]):
+                if w["fmt"] == fmt and w["how"] == how and not w.get("comp") and not w.get("parts"):
+                    return j
+            return None
+
+        # raw string vs file delivery of the very same text (the reference is a raw string itself: both would break together)
+        raw_blamed = set()
+        for fmt in LINE_FORMATS:
+            ri, fi = plain(fmt, "raw"), plain(fmt, "file")
+            if ri is None or fi is None:
+                continue
+            a, b = outs[fi], outs[ri]
+            two = dict(case, variants=[case["variants"][ri], case["variants"][fi]])
+            if isinstance(a, U.Skipped) != isinstance(b, U.Skipped):
+                bad, sig = ("raw string", b.signature) if isinstance(b, U.Skipped) else ("file", a.signature)
+                raw_blamed.add(fmt)
+                R.emit("C08:channel-differs:raw-vs-file:crash",
+                       "%s: the %s delivery raises %s, the other delivery of the same text returns normally" % (fmt, bad, sig), two)
+            elif not isinstance(a, U.Skipped):
+                d = difference(a, b, T, cfg, t)
+                if d is not None:
+                    raw_blamed.add(fmt)
+                    R.emit("C08:channel-differs:raw-vs-file:%s" % d[0],
+                           "%s: raw_graph=<text> and graph_file_input=<file holding the same text> yield different shapes "
+                           "(reference below = file delivery): %s" % (fmt, d[1]), two)
+        # the reference stays the raw N-Triples string unless it disagrees with its own file delivery AND the file delivery is the
+        # one most other channels agree with (otherwise every channel would be blamed for a defect of the raw-string reader)
+        fi = plain("nt", "file")
+        if "nt" in raw_blamed and fi is not None and not isinstance(outs[fi], U.Skipped):
+            others = [o for j, o in outs.items() if not isinstance(o, U.Skipped) and case["variants"][j]["fmt"] not in LINE_FORMATS]
+            def sides_with(cand, o):
+                d = difference(cand, o, T, cfg, t)
+                return d is None or d[0] == "tie"
+            votes_file = sum(1 for o in others if sides_with(outs[fi], o))
+            votes_raw = 0 if isinstance(ref, U.Skipped) else sum(1 for o in others if sides_with(ref, o))
+            if isinstance(ref, U.Skipped) or votes_file > votes_raw:
+                ref, ref_variant, ref_name = outs[fi], {"fmt": "nt", "how": "file"}, "N-Triples file (the raw string disagrees with it)"
+                R.stats["reference_switched_to_file"] += 1
+        if isinstance(ref, U.Skipped):
+            R.crashes["reference: " + ref.signature] += 1
             return
         if any(sh["cons"] for sh in ref):
             R.nontrivial.add(U.digest(nt, cfg, t))
         refs = {}
 
         def reference_for(v):
-            """Reference for a line-reader delivery in several files: the raw N-Triples string with the triples in the order in
+            """Reference for a line-reader delivery in several files: the reference channel with the triples in the order in
             which the files deliver them (a partition that is not contiguous permutes the document: that is C09's subject)."""
             if v["fmt"] not in LINE_FORMATS or not v.get("parts"):
                 return ref
@@ -300,19 +357,17 @@ def check_case(case, R):
                 return ref
             if order not in refs:
                 try:
-                    refs[order] = run_variant(R, ref_variant, [T[i] for i in order], cfg, t, tmp)
+                    refs[order] = run_variant(R, dict(ref_variant, id=1000 + len(refs)), [T[i] for i in order], cfg, t, tmp)
                 except U.Skipped:
                     refs[order] = ref
             return refs[order]
 
         status = {}                                     # variant index -> None (agrees) | ("differs", kind, why) | ("crashes", sig)
         for i, v in enumerate(case["variants"]):
-            v = dict(v, id=i)
-            try:
-                nd = run_variant(R, v, T, cfg, t, tmp)
-            except U.Skipped as exc:
-                R.crashes[exc.signature] += 1
-                status[i] = ("crashes", exc.signature, exc.signature)
+            nd = outs[i]
+            if isinstance(nd, U.Skipped):
+                R.crashes[nd.signature] += 1
+                status[i] = ("crashes", nd.signature, nd.signature)
                 continue
             ref_v = reference_for(v)
             d = difference(ref_v, nd, T, cfg, t)
@@ -332,6 +387,8 @@ def check_case(case, R):
             st = status[i]
             if st is None:
                 continue
+            if v["how"] == "raw" and v["fmt"] in raw_blamed:     # already reported as raw-vs-file
+                continue
             name = channel_name(v)
             comp, nf = v.get("comp"), n_files(v)
             detail = ""
@@ -347,14 +404,14 @@ def check_case(case, R):
             one = dict(case, variants=[dict((k, x) for k, x in v.items() if k != "id")])
             if st[0] == "crashes":
                 R.emit("C08:channel-crashes:%s%s" % (name, detail),
-                       "channel %s (compression %s, %d file(s)) raises %s; the reference channel (raw N-Triples) returns normally"
-                       % (name, comp, nf, st[1]), one, observed=st[1])
+                       "channel %s (compression %s, %d file(s)) raises %s; the reference channel (%s) returns normally"
+                       % (name, comp, nf, st[1], ref_name), one, observed=st[1])
             else:
                 if st[1] == "tie":                     # independent of compression / number of files / raw vs file
                     name, detail = (v["fmt"] if v["how"] != "graph" else name), ""
                 R.emit("C08:channel-differs:%s%s:%s" % (name, detail, st[1]),
-                       "channel %s (compression %s, %d file(s)%s) yields other shapes than the raw N-Triples string: %s"
-                       % (name, comp, nf, ", partition %r" % v["parts"] if v.get("parts") else "", st[2]), one)
+                       "channel %s (compression %s, %d file(s)%s) yields other shapes than the %s: %s"
+                       % (name, comp, nf, ", partition %r" % v["parts"] if v.get("parts") else "", ref_name, st[2]), one)
     finally:
         shutil.rmtree(tmp, ignore_errors=True)
 
@@ -408,20 +465,40 @@ def _retype(T, rng):
     return U.dedup([(s, p, mp.get(o, o)) for (s, p, o) in T])
 
 
-# Lexical forms that stress the readers.  Deliberately absent: '%' (rdflib-backed channels then report rdf:langString -- the known
-# '%'-for-'@' reader defect behind the exclusion of language tags) and raw tabs / line breaks (not representable in tsv_spo).
+# Lexical forms that stress the readers.  Deliberately absent: '%' (was the marker of the repaired '%'-for-'@' defect; kept out so
+# that old and new trees are judged alike) and raw tabs / line breaks (not representable in tsv_spo).
 TRICKY = ["bob@ex.org", "a#b", 'say "hi"', "back\\slash", u"caf\u00e9 \u4e2d", "a  b", "semi;colon, comma.", "<tag>", "ends with dot.",
           "http://ex.org/x", "x^^y", "_:b", "@en", " lead"]
+# Characters at which str.splitlines() -- but neither N-Triples, TSV nor Turtle -- ends a line; written raw by the nt / tsv_spo /
+# turtle_iter renderers, always in the middle of the text.  (RDF/XML cannot carry U+000C: blank in that rendering only.)
+LINE_SEPARATORS = [u"first\u2028second", u"next\u0085line", u"page\x0cbreak", u"a\u2028b\u0085c\x0cd"]
+LANGUAGE_TAGGED = [("hello", "en"), ("hola", "es"), ("colour", "en-GB")]
 
 
 def _add_tricky(T, rng):
     M, S, G = U.lib()
     subjects = U.dedup([s for (s, p, o) in T if isinstance(s, M.IRI)])
     out = list(T)
+    props = (G.EX + "label", G.PROP_P, G.OTHER + "note")
     for _ in range(rng.randint(2, 5)):
         lx = rng.choice(TRICKY)
-        out.append(M.Triple(rng.choice(subjects), rng.choice((G.EX + "label", G.PROP_P, G.OTHER + "note")),
-                            M.Lit(lx) if rng.random() < 0.7 else M.Lit(lx, dt=U.DT_FOO)))
+        out.append(M.Triple(rng.choice(subjects), rng.choice(props), M.Lit(lx) if rng.random() < 0.7 else M.Lit(lx, dt=U.DT_FOO)))
+    return U.dedup(out)
+
+
+def _add_separators_and_languages(T, rng):
+    """Plain, custom-typed and language-tagged literals with line-separator characters + ordinary language-tagged literals."""
+    M, S, G = U.lib()
+    subjects = U.dedup([s for (s, p, o) in T if isinstance(s, M.IRI)])
+    out = list(T)
+    props = (G.EX + "label", G.PROP_P, G.OTHER + "note")
+    for _ in range(rng.randint(2, 4)):
+        lx = rng.choice(LINE_SEPARATORS)
+        lit = (M.Lit(lx), M.Lit(lx, dt=U.DT_FOO), M.Lit(lx, lang=rng.choice(("en", "es"))))[rng.randrange(3)]
+        out.append(M.Triple(rng.choice(subjects), rng.choice(props), lit))
+    for _ in range(rng.randint(1, 3)):
+        lx, lang = rng.choice(LANGUAGE_TAGGED)
+        out.append(M.Triple(rng.choice(subjects), rng.choice(props), M.Lit(lx, lang=lang)))
     return U.dedup(out)
 
 
@@ -437,6 +514,8 @@ def gen_cases(tier, seed):
             T = _retype(T, rng)
         if gi % 4 == 2:
             T = _add_tricky(T, rng)
+        if gi % 4 == 0 or gi % 8 == 2:
+            T = _add_separators_and_languages(T, rng)
         cases.append({"family": "iri", "origin": origin, "nt": U.to_nt(T), "cfg": modes[gi % 3], "t": (0, 0, 0.5)[gi % 3],
                       "variants": _variants(rng, len(T), FORMATS)})
     fam = [("enum-bnode", T) for T in U.enum_small(n_bn // 3, "bnode")]
@@ -455,7 +534,8 @@ RULE = ("one evaluation = one fresh Shaper run on one delivery of the graph. Eve
         "string: labels, instance counts, multiset of (inverse, predicate, value, cardinality, ratio, count), multiset of figure "
         "comments (prefixes expanded, order ignored; instances_report_mode='mixed'). Differences that concern only the choice among "
         "equally frequent shape references are reported with kind 'tie'. Graphs with blank nodes: only nt, tsv_spo, turtle_iter and the "
-        "rdflib Graph object. URLs are impossible offline: skipped. A channel that raises while the reference does not is reported as "
+        "rdflib Graph object. For nt/tsv_spo/turtle_iter the raw string is also compared with the file holding the same text (raw-vs-file). "
+        "URLs are impossible offline: skipped. A channel that raises while the reference does not is reported as "
         "C08:channel-crashes and counted in skipped_crashes.")
 
 
@@ -538,7 +618,9 @@ def run(pid=PID, tier="quick", seed=0):
             "evaluations": evaluations, "distinct_nontrivial": len(nontrivial), "cases": len(cases), "rule": RULE,
             "bounds": "%d IRI-only graphs (enumerated 3-node graphs + seeded random graphs with 3-%d nodes, plain / xsd:integer / "
                       "xsd:decimal / xsd:boolean / xsd:date / custom-datatype literals, a quarter with lexical forms containing @ # ; , . < > "
-                      "\\ escaped quotes, double blanks, non-ASCII; no language tags, no '%%', no unquoted numbers) x ~%d "
+                      "\\ escaped quotes, double blanks, non-ASCII, three eighths with language-tagged literals and plain / custom-typed / "
+                      "language-tagged literals containing U+2028, U+0085, U+000C (blank instead of U+000C in RDF/XML); no '%%', no "
+                      "unquoted numbers) x ~%d "
                       "deliveries each; %d graphs with blank nodes x ~%d deliveries (line readers + rdflib Graph object); multi-file "
                       "deliveries of the line readers are compared with the raw N-Triples string in the order of the files (%d of "
                       "them agree with it but not with the original order: tie-breaks follow the triple order); seed %s; wall-clock "
@@ -618,7 +700,19 @@ def _mutants():
         rt.RdflibTripleYielder._turn_into_model_literal = staticmethod(_turn_into_model_literal)
         return lambda: setattr(rt.RdflibTripleYielder, "_turn_into_model_literal", staticmethod(old))
 
-    return [("the multi-file yielder skips the last file / archive member", ":files=", skip_last_file),
+    def raw_reader_splitlines():
+        import shexer.io.line_reader.raw_string_line_reader as rs
+        old = rs.RawStringLineReader.read_lines
+
+        def read_lines(self):
+            for a_line in self._raw_string.splitlines():          # also splits at U+2028, U+0085, \x0c ...
+                if a_line.strip() != "":
+                    yield a_line
+        rs.RawStringLineReader.read_lines = read_lines
+        return lambda: setattr(rs.RawStringLineReader, "read_lines", old)
+
+    return [("RawStringLineReader.read_lines uses splitlines()", "C08:channel-differs:raw-vs-file:", raw_reader_splitlines),
+            ("the multi-file yielder skips the last file / archive member", ":files=", skip_last_file),
             ("the rdflib yielder reports every literal as xsd:string", "C08:channel-differs:turtle", every_literal_a_string)]
 
 
